@@ -470,10 +470,13 @@ class Sim:
             self.deliver_signals(t)
 
     # ---------------------------------------------------------------- signals
-    def kill(self, pid, sig, sender="env"):
+    def kill(self, pid, sig, sender="env", sender_proc=None):
         p = self.procs.get(pid)
         if p is None or p.state == "gone":
             raise ProcessLookupError(errno.ESRCH, "No such process")
+        if sender_proc is not None and sender_proc.euid != 0 and \
+                sender_proc.ruid not in (p.ruid, p.suid) and sender_proc.euid not in (p.ruid, p.suid):
+            raise PermissionError(errno.EPERM, "Operation not permitted")
         if sig == 0:
             return
         self.ev(sender, "kill", (pid, SIGNAMES.get(sig, sig)))
